@@ -142,6 +142,32 @@ def h_opl_way_locations(I, job):
     return h_opl_roundtrip(I, job2)
 
 
+def h_xml_writer_sections(I, job):
+    """writer half of the XML change-file round trip: which section an object is written into (the reader makes exactly the objects inside <delete> invisible)"""
+    kind = job['kind']
+    ver = I.named('version', 8); I.assume(z3.And(I.term(ver, 8) >= 1, I.term(ver, 8) <= 3)); ver = I.concretize(ver, 'version')
+    vis = I.concretize(I.named('visible', 1), 'visible'); ops = job['change_ops']
+    text = I.new_obj(512, 'text', 'heap'); tl = I.new_obj(4, 'tl', 'heap')
+    rc = I.concretize(I.call('@verif_xml_write_object', [kind, 7, ver, vis, ops, text, 512, tl]), 'rc')
+    if rc != 0: raise Finding('writer', 'XML writer fails (rc=%d)' % rc)
+    n = I.concretize(I.load(tl, i32), 'len')
+    out = bytes(I.concretize(I.load(text + k, i8), 'ch') for k in range(n)).decode('latin-1')
+    I.observe('text', out)
+    el = ['<node', '<way', '<relation'][kind]
+    if el not in out: raise Finding('writer', 'no %s element in %r' % (el, out))
+    if ops:
+        before = out[:out.index(el)]
+        sec = [t for t in ('<create>', '<modify>', '<delete>') if t in before]
+        if len(sec) != 1: raise Finding('sections', 'object not inside exactly one change section: %r' % out)
+        if (sec[0] == '<delete>') != (not vis): raise Finding('sections', 'a%s object (version %d) is written into %s: the reader makes exactly the objects inside <delete> invisible' % (' visible' if vis else 'n invisible', ver, sec[0]))
+        if vis and (sec[0] == '<create>') != (ver == 1): raise Finding('sections', 'visible object of version %d written into %s' % (ver, sec[0]))
+        if out.count(sec[0].replace('<', '</')) != 1: raise Finding('sections', 'section not closed: %r' % out)
+    else:
+        want = 'visible="%s"' % ('true' if vis else 'false')
+        if want not in out: raise Finding('visible', 'visible attribute missing or wrong in %r' % out)
+    I.reach('end')
+
+
 def h_pbf_object(I, job):
     """plain node / way / relation through PBFOutputFormat::node / way / relation and SerializeBlob, then through the reader kernels; dumps must agree"""
     kind = job['kind']; low = job.get('low', 0)
@@ -203,6 +229,9 @@ def harnesses(tier):
         Harness('opl_way_locations', 'codec', h_opl_way_locations, mode='INT', tests=[dict(mask=7), dict(mask=0), dict(mask=5)],
                 desc='a way with three node references through OPLOutputBlock with locations_on_ways and back through opl_parse_line, for every subset of references that carry a location (an undefined location is a legal value): the reader accepts what the writer wrote and the references come back with exactly those locations',
                 bounds='3 references, 8 location masks; coordinates concrete (text conversion: C13)'),
+        Harness('xml_writer_sections', 'codec', h_xml_writer_sections, jobs=[dict(kind=kd, change_ops=o) for kd in (0, 1, 2) for o in (1, 0)], tests=[dict(_job=0, version=1, visible=0), dict(_job=1, version=2, visible=1)],
+                desc='writer half of the XML visibility round trip: XMLOutputBlock on a node / way / relation with symbolic version (1..3) and visibility: in change files (.osc) the object is inside exactly one of <create> / <modify> / <delete>, inside <delete> iff it is invisible (the reader half, C02 xml_objects, makes exactly those objects invisible), <create> iff visible with version 1; in history files the visible attribute carries the flag',
+                bounds='one object per block, versions 1..3; expat is not encoded: the two halves are checked against the same section rule'),
         Harness('pbf_object_roundtrip', 'codec', h_pbf_object, wall=900,
                 jobs=[dict(kind=0, cls=['small']), dict(kind=0, cls=['extreme'], u32=(1 << 32) - 1), dict(kind=1, cls=['small', 'small', 'small', 'small']), dict(kind=1, cls=['medium', 'small', 'negative', 'medium']), dict(kind=1, cls=['negative', 'medium', 'medium', 'negative'], low=1),
                       dict(kind=2, cls=['small']), dict(kind=2, cls=['medium', 'negative', 'medium', 'small', 'medium'])] + ([] if q else [dict(kind=1, cls=['extreme', 'negative', 'extreme', 'small']), dict(kind=2, cls=['negative', 'medium', 'small', 'negative', 'extreme']), dict(kind=1, cls=['small'], low=1)]),
